@@ -4,6 +4,9 @@
 -/
 import ImapVerif.Grammar.Rfc3501
 import ImapVerif.Show
+import ImapVerif.Builders
+import ImapVerif.BodyStruct
+import ImapVerif.Owned
 
 open Bytes
 
@@ -28,8 +31,79 @@ def pred (name : String) : Option (UInt8 → Bool) :=
   | "char" => some Grammar.isChar
   | _ => none
 
+def showOwned (i : Bytes) : String :=
+  match Grammar.parseResponse i with
+  | .ok v r => s!"OK {i.length - r.length} {Ser.response (Owned.response v)}"
+  | .inc => "INC"
+  | .err => "ERR"
+  | .fail => "ERR"
+  | .panic => "PANIC"
+
+def showQ : Builders.QRes → String
+  | .ok q => "OK " ++ toHex q
+  | .refused => "REFUSED"
+  | .panic => "PANIC"
+
+/-- `-` stands for the empty byte string -/
+def arg (h : String) : Bytes := if h == "-" then [] else ofHex h
+
+def attrOf : String → Option Builders.Attribute
+  | "Body" => some .body | "Envelope" => some .envelope | "Flags" => some .flags
+  | "InternalDate" => some .internalDate | "ModSeq" => some .modSeq | "Rfc822" => some .rfc822
+  | "Rfc822Size" => some .rfc822Size | "Rfc822Text" => some .rfc822Text | "Uid" => some .uid
+  | "GmailLabels" => some .gmailLabels | "GmailMsgId" => some .gmailMsgId
+  | _ => none
+
+def macroOf : String → Option Builders.AttrMacro
+  | "All" => some .all | "Fast" => some .fast | "Full" => some .full
+  | _ => none
+
+def callOf (t : String) : Option Builders.Call :=
+  match t.splitOn ":" with
+  | ["n", a] => a.toNat?.map .num
+  | ["r", a, b] => match a.toNat?, b.toNat? with
+    | some a, some b => some (.range a b)
+    | _, _ => none
+  | ["f", a] => a.toNat?.map .rangeFrom
+  | ["a", x] => (attrOf x).map .attr
+  | ["m", x] => (macroOf x).map .attrMacro
+  | ["c", a] => a.toNat?.map .changedSince
+  | _ => none
+
+def showFetch (uid : String) (toks : List String) : String :=
+  match toks.mapM callOf with
+  | none => "bad-op"
+  | some calls =>
+    match Builders.fetchCommand (uid == "1") calls with
+    | some args => "OK " ++ toHex args
+    | none => "ILLTYPED"
+
+def showBsp (toks : List String) : String :=
+  match toks with
+  | n :: rest =>
+    match n.toNat?, BodyStruct.parseTrees (rest.length + 1) 1 rest with
+    | some n, some ([t], []) => BodyStruct.showTable t n
+    | _, _ => "bad-op"
+  | _ => "bad-op"
+
 def step (line : String) : String :=
   match line.trimAscii.toString.splitOn " " with
+  | ["owned", h] => showOwned (ofHex h)
+  | ["qstr", h] => showQ (Builders.quotedString (arg h))
+  | ["text", "login", a, b] => showQ (Builders.login (arg a) (arg b))
+  | ["text", "list", a, b] => showQ (Builders.list (arg a) (arg b))
+  | ["text", "select", a] => showQ (Builders.select false false (arg a))
+  | ["text", "examine", a] => showQ (Builders.select true false (arg a))
+  | ["text", "select_cs", a] => showQ (Builders.select false true (arg a))
+  | ["text", "examine_cs", a] => showQ (Builders.select true true (arg a))
+  | ["simple", "check"] => "OK " ++ toHex Builders.check
+  | ["simple", "close"] => "OK " ++ toHex Builders.close
+  | "fetch" :: uid :: toks => showFetch uid toks
+  | ["encode", t, a] => toHex (Builders.encode (arg t) (arg a))
+  | ["tag", k] => match k.toNat? with
+    | some k => toHex (Builders.tagOf k)
+    | none => "bad-op"
+  | "bsp" :: toks => showBsp toks
   | ["parse", h] => showParse (ofHex h)
   | ["parse"] => showParse []
   | ["pred", name, n] =>
